@@ -20,7 +20,10 @@ from pyvc.contract import REGISTRY            # noqa: E402
 from pyvc import harness as Hn                # noqa: E402
 from pyvc import modules as M                 # noqa: E402
 
-LEVELS = {  # property -> level reported when everything generated was discharged
+LEVELS = {  # property -> level reported when everything generated was discharged (default: proof)
+    'C06': 'exploration', 'C07': 'exploration', 'C09': 'exploration', 'C11': 'exploration', 'C13': 'exploration',
+    'C14': 'exploration', 'C16': 'exploration', 'C18': 'exploration', 'C19': 'exploration', 'C20': 'exploration',
+    'C12': 'translation_validation',
 }
 
 
@@ -269,6 +272,8 @@ def run_property(prop, tier, seed, only=None):
     level = LEVELS.get(prop, 'proof')
     all_discharged = n_obl > 0 and n_dis == n_obl and not lock_missing
     if level == 'proof' and not all_discharged:
+        level = 'other'
+    if level != 'proof' and not bounded:
         level = 'other'
     cov = {
         'obligations': n_obl, 'discharged': n_dis,
